@@ -331,8 +331,8 @@ def run_keepalive():
 # ------------------------------------------------------------------------------------------ shards
 def shards(tier):
     out = []
-    n_self = 1500 if tier == 'quick' else 6000
-    n_ref = 2500 if tier == 'quick' else 12000
+    n_self = 1500 if tier == 'quick' else 30000
+    n_ref = 2500 if tier == 'quick' else 50000
     for i in range(4):
         out.append({'name': 'open-self-%d' % i, 'kind': 'open-self', 'examples': n_self, 'hypothesis': True})
     for i in range(6):
